@@ -99,6 +99,22 @@ mod verif_driver_reduce {
                 witness("c02_tir/Expression::index#postcondition", "index", format!("Expression::Struct{{10,20,30}}[{i}]"), format!("{got:?}"), "field i, or None when i is out of range");
             }
         }
+        // maps are looked up by key (first match), tuples by position 0 / 1
+        let map = Expression::Map(vec![(num(5), num(50)), (num(7), num(70)), (num(5), num(51))]);
+        // (indexing a map yields the ENTRY - the (key, value) pair - of the first entry with that key, as the code and the
+        // lowering of map access expect; a first version of this oracle demanded the bare value and was wrong)
+        let entry = |k: i128, v: i128| Some(Expression::Tuple(Box::new((num(k), num(v)))));
+        for (k, want) in [(5i128, entry(5, 50)), (7, entry(7, 70)), (6, None), (0, None), (1, None)] {
+            n += 1;
+            let got = quiet(|| map.index(num(k)));
+            if got != Ok(want.clone()) { witness("c02_tir/Expression::index#postcondition", "index", format!("Map{{5:50, 7:70, 5:51}}[{k}]"), format!("{got:?}"), &format!("{want:?} (the first entry with this key)")); }
+        }
+        let tuple = Expression::Tuple(Box::new((num(11), num(22))));
+        for (k, want) in [(0i128, Some(num(11))), (1, Some(num(22))), (2, None), (-1, None)] {
+            n += 1;
+            let got = quiet(|| tuple.index(num(k)));
+            if got != Ok(want.clone()) { witness("c02_tir/Expression::index#postcondition", "index", format!("Tuple(11, 22)[{k}]"), format!("{got:?}"), &format!("{want:?}")); }
+        }
         println!("VERIF-CASES fn=index n={n}");
     }
 
@@ -186,6 +202,39 @@ mod verif_driver_reduce {
 
     fn count(t: &Tx, what: &str) -> usize {
         format!("{t:?}").matches(what).count()
+    }
+
+    // ---- C07 / C06: `reduce` reaches every position (a foldable operation is folded wherever it sits), and a template
+    // without parameters, queries, fee markers and pending operations IS constant (so that it can be compiled)
+    #[test]
+    fn reduce_reaches_every_position() {
+        let mut n = 0;
+        let foldable = || Expression::EvalBuiltIn(Box::new(BuiltInOp::Add(num(1), num(2))));
+        for (wname, wexpr) in wrappers(foldable()) {
+            if wname.starts_with("Query.") || wname.starts_with("Compute") || wname == "BuildScriptAddress" { continue; } // pending until resolved / compiled
+            for (pos, tx) in tx_positions(wexpr.clone()) {
+                n += 1;
+                let input = format!("Add(1, 2) at Tx.{pos} inside {wname}");
+                match quiet(|| reduce(tx.clone())) {
+                    Ok(Ok(t2)) => {
+                        if count(&t2, "Add(") != 0 { witness("c07_reduce/reduce#postcondition", "reduce", input.clone(), "Add(1, 2) survives reduce".into(), "every foldable operation is folded, wherever it sits"); }
+                        else if count(&t2, "Eval") == 0 && count(&t2, "Expect") == 0 && !t2.is_constant() {
+                            witness("c06_traversal/is_constant#postcondition", "is_constant", input.clone(), "is_constant() == false for a template without parameters, queries or pending operations".into(), "such a template is constant");
+                        }
+                    }
+                    _ => {} // an operation that cannot be evaluated at this position (e.g. a property of a number) is an error, not a silent leftover
+                }
+            }
+        }
+        // literals of every kind are constant
+        for (name, e) in [("None", Expression::None), ("Number", num(1)), ("Bool", Expression::Bool(true)), ("String", Expression::String("s".into())), ("Bytes", Expression::Bytes(vec![1])),
+                          ("Hash", Expression::Hash(vec![2; 28])), ("Address", Expression::Address(vec![3; 29])), ("UtxoRefs", Expression::UtxoRefs(vec![])), ("UtxoSet", Expression::UtxoSet(HashSet::new())),
+                          ("List", Expression::List(vec![num(1)])), ("Tuple", Expression::Tuple(Box::new((num(1), num(2)))))] {
+            n += 1;
+            if !e.is_constant() { witness("c06_traversal/is_constant#postcondition", "is_constant", format!("literal {name}"), "false".into(), "a literal is constant"); }
+        }
+        println!("VERIF-CASES fn=reduce n={n}");
+        println!("VERIF-CASES fn=is_constant n={n}");
     }
 
     #[test]
